@@ -388,7 +388,12 @@ class TreeSim(WorldBase):
             self.nfiles += 1
             fn = os.path.join(self.scratch, f"t{self.nfiles}.yaml")
             src.t.dump(fn)
-            t = Tensor.fromYAMLfile(fn)
+            try:
+                t = Tensor.fromYAMLfile(fn)
+            except SystemExit:
+                # the library could not load its own dump (tuple coordinates: known finding F13 of C13)
+                self.probe("yaml_reload_exit")
+                raise Skip("yaml reload called exit()")
             shape = list(src.shape)
             default = 0
         elif route == "setroot":
@@ -1228,8 +1233,8 @@ class TreeSim(WorldBase):
                 continue
             try:
                 ev = fn(g)
-            except TypeError:
-                # mixed int / tuple coordinates after rank transforms: this op does not apply here
+            except (TypeError, ValueError, IndexError):
+                # mixed int / tuple / negative coordinates after rank transforms: this op does not apply here
                 self.probe("gen_inapplicable:" + kind)
                 ev = None
             if ev is not None:
